@@ -9,7 +9,7 @@ except ImportError:      # replays run under the repository's interpreter, witho
     z3 = None
 
 from . import frontend
-from .api import Ty, Contract
+from .api import Ty, Contract, Dependent
 from .interp import Interp, PyRaise, Closure, BoundMethod
 from .loops import _call_pred, _param_names
 from .path import PathState, PathAbort, RetryPath, Unsupported
@@ -61,7 +61,7 @@ def _clause_env(bound, ghosts, extra):
 def apply_contract(interp, c, func, args, kwargs):
     """Modular call: assert the precondition, havoc, assume the postcondition."""
     st = interp.st
-    st.used_contracts.add(c.qname)
+    st.used_contracts.add(getattr(c, 'key', c.qname))
     if c.returns is None and c.yields is None:
         from .api import _returns_a_value
         if c.returns_value is None:
@@ -103,12 +103,46 @@ def apply_contract(interp, c, func, args, kwargs):
     old = None
     if c.old is not None:
         old = _call_pred(interp, c.old, env)
+        env = dict(env, old=old)      # `when` conditions of exceptional outcomes may mention the pre-state
     if c.event is not None:
         st.emit(c.event, dict(bound))
-    # ghost (monitor) variables the function may change: arbitrary afterwards, constrained by `ensures`
+    # frame: ghost state the callee may change (entries 'ghost:<key>' of `modifies`) is havoced;
+    # what is known about it afterwards is what the (exceptional) postconditions say
+    short = c.qname.rpartition(':')[2]
     for key, ty in (c.modifies or {}).items():
+        if isinstance(ty, Dependent):
+            v = ty.make_for_call(interp, '%s@%s' % (key, short), env)
+        else:
+            v = ty.make(interp, '%s@%s' % (key, short)) if isinstance(ty, Ty) else ty
         if key.startswith('ghost:'):
-            st.ghost[key[6:]] = ty.make(interp, '%s@%s' % (key, c.qname.rpartition(':')[2]))
+            st.ghost[key[6:]] = v
+        else:
+            # object field reachable from a parameter: 'self._x', 'self._a._b' (private names written mangled)
+            path = key.split('.')
+            if path[0] not in bound or len(path) < 2:
+                raise Unsupported('modifies entry %r of %s: unknown base' % (key, c.qname))
+            obj = bound[path[0]]
+            for a in path[1:-1]:
+                obj = interp.getattr(obj, a)
+            if isinstance(obj, (SOpt, SChoice)):
+                obj = interp.resolve(obj)
+            interp.setattr(obj, path[-1], v)
+
+    def raise_(exc_cls, spec):
+        exc = _make_exc(interp, exc_cls, spec, env)
+        ens = spec.get('ensures')
+        if ens is not None and 'trace' not in _param_names(ens):
+            # exceptional postcondition: assumed of the exception the callee raises
+            env_x = _clause_env(bound, ghosts, {'exc': exc, 'old': old, 'trace': st.trace, 'ghost': st.ghost})
+            try:
+                st.assume(interp.truth(_call_pred(interp, ens, env_x)))
+            except PyRaise as e:
+                raise Unsupported('exceptional postcondition of %s raised %r when assumed at a call site'
+                                  % (c.qname, e.exc))
+        if c.event is not None:
+            st.emit(c.event + ':raised', dict(bound), exc)
+        raise PyRaise(exc)
+
     # exceptional outcomes
     outcomes = ['return']
     for exc_cls, spec in c.raises.items():
@@ -122,16 +156,17 @@ def apply_contract(interp, c, func, args, kwargs):
             if when is not None:
                 w = interp.truth(_call_pred(interp, when, env))
                 if interp.st.fork(w):
-                    exc = _make_exc(interp, exc_cls, spec, env)
-                    raise PyRaise(exc)
+                    raise_(exc_cls, spec)
         nondet = [o for o in outcomes[1:] if o[2].get('when') is None]
         if nondet:
             k = st.choose(1 + len(nondet))
             if k > 0:
                 _, exc_cls, spec = nondet[k - 1]
-                exc = _make_exc(interp, exc_cls, spec, env)
-                raise PyRaise(exc)
-    result = c.returns.make(interp, 'ret.%s' % c.qname.rpartition(':')[2]) if isinstance(c.returns, Ty) else None
+                raise_(exc_cls, spec)
+    if isinstance(c.returns, Dependent):
+        result = c.returns.make_for_call(interp, 'ret.%s' % short, env)
+    else:
+        result = c.returns.make(interp, 'ret.%s' % short) if isinstance(c.returns, Ty) else None
     if c.yields is not None:
         # a generator used through its contract: all its items at once (its effects happen at the call)
         from .models import SIter
@@ -140,16 +175,29 @@ def apply_contract(interp, c, func, args, kwargs):
         result = SIter(ys, 0)
     env2 = _clause_env(bound, ghosts, {'result': result, 'old': old, 'trace': st.trace, 'ghost': st.ghost})
     for name, clause in c.ensures.items():
-        if isinstance(clause, tuple):       # (clause, 'effect') : executed for its effect on ghost state
+        if isinstance(clause, tuple):
+            if clause[1] == 'check-only':   # proved of the function, not assumed at call sites
+                continue
+            # (clause, 'effect') : executed for its effect on ghost state
             _call_pred(interp, clause[0], env2)
             continue
-        v = interp.truth(_call_pred(interp, clause, env2))
-        if v is False and not st.scopes:
-            # nothing symbolic about it: almost certainly the identity (`is`) of a havocked object, which
-            # would silently end the path -- say so instead
-            raise Unsupported('ensures[%s] of %s is definitely false at a call site in %s (identity of a '
-                              'havocked object? use an (effect) clause or inline=True)' % (name, c.qname, caller))
-        st.assume(v)
+        if 'trace' in _param_names(clause):
+            # describes the events *during* the call: says nothing about the caller's trace (check-only)
+            continue
+        try:
+            n_dec = len(st.decisions)
+            v = interp.truth(_call_pred(interp, clause, env2))
+            if v is False and not st.scopes and len(st.decisions) == n_dec:
+                raise Unsupported('postcondition %r of %s is constantly false for the havoced result at a call site '
+                                  '(identity with a fresh object? use a Dependent shape or a check-only clause)'
+                                  % (name, c.qname))
+            st.assume(v)
+        except PyRaise as e:
+            # an ill-defined clause must not look like an exception of the code under verification
+            raise Unsupported('postcondition %r of %s raised %r when assumed at a call site'
+                              % (name, c.qname, e.exc))
+    if c.event is not None:
+        st.emit(c.event + ':returned', dict(bound), result)
     return result
 
 
@@ -157,9 +205,11 @@ def _make_exc(interp, exc_cls, spec, env):
     mk = spec.get('make')
     if mk is not None:
         return _call_pred(interp, mk, env)
-    if isinstance(spec.get('shape'), Ty):
-        # the shape (attributes) of the exception object as call sites see it
-        return spec['shape'].make(interp, 'exc.%s' % _exc_name(exc_cls))
+    shape = spec.get('shape')       # Ty of the exception object as callers see it
+    if isinstance(shape, Dependent):
+        return shape.make_for_call(interp, 'exc.%s' % getattr(exc_cls, '__name__', 'exc'), env)
+    if isinstance(shape, Ty):
+        return shape.make(interp, 'exc.%s' % getattr(exc_cls, '__name__', 'exc'))
     if isinstance(exc_cls, Ty):
         return exc_cls.make(interp, 'exc')
     try:
@@ -188,6 +238,7 @@ class FunctionReport:
         self.unknown_feasibility = 0
         self.feasibility_queries = 0
         self.slow_queries = []
+        self.uncovered = []        # 'line N: <source>' of return/raise statements no feasible path reached
         self.deps_sha = None
 
 
@@ -201,6 +252,12 @@ def verify_function(reg, c, budget_paths=MAX_PATHS):
     rep.sha = info.source_sha
     worklist = [[]]
     seen = 0
+    import ast as _ast
+    from .loops import _walk_own
+    # exits of the function's own body (nested functions that are only defined, not called, do not count)
+    exits = {n.lineno for n in _walk_own(info.node) if isinstance(n, (_ast.Return, _ast.Raise))} \
+        if not isinstance(info.node, _ast.Lambda) else set()
+    covered = set()
     while worklist:
         prefix = worklist.pop()
         seen += 1
@@ -211,15 +268,17 @@ def verify_function(reg, c, budget_paths=MAX_PATHS):
         st = PathState(prefix, stats)
         interp = Interp(st, reg)
         interp.fn_name = c.qname
+        interp.cover_file = info.filename
         try:
             _run_path(interp, reg, c, func, rep)
             rep.paths += 1
+            covered |= st.reached
         except PathAbort:
             rep.aborted_paths += 1
         except RetryPath as r:
             worklist.append(r.prefix)
-            # alternatives discovered before the retry site stay to be explored (the re-run replays that
-            # part from its prefix and does not discover them again); later ones are found again
+            # alternatives discovered BEFORE the retry site are replayed from the prefix on the re-run,
+            # i.e. never re-discovered: keep them (those after the site will be found again)
             for p in st.pending:
                 if len(p) < len(r.prefix):
                     worklist.append(p)
@@ -247,6 +306,20 @@ def verify_function(reg, c, budget_paths=MAX_PATHS):
         rep.unknown_feasibility += st.unknown_feasibility
         rep.feasibility_queries += stats.get('feasibility_queries', 0)
         rep.slow_queries.extend(stats.get('slow_queries', []))
+    if c.cover and not rep.unsupported and not rep.errors:
+        # reachability cover (DESIGN 2.4): every return / raise of the function must lie on a feasible
+        # path, otherwise assumptions (preconditions, assumed postconditions of callees) cut it off and
+        # the obligations on that exit were never generated
+        try:
+            lines = frontend.parse_file(info.filename)[0].splitlines()
+        except Exception:
+            lines = []
+        allowed = c.cover if isinstance(c.cover, (tuple, list)) else ()
+        for ln in sorted(exits - covered):
+            text = lines[ln - 1].strip() if 0 < ln <= len(lines) else ''
+            if any(a in text for a in allowed):
+                continue
+            rep.uncovered.append('line %d: %s' % (ln, text))
     rep.wall = time.time() - t0
     rep.deps_sha = _deps_sha(reg, c, rep)
     return rep
@@ -293,8 +366,9 @@ def _run_path(interp, reg, c, func, rep):
     args, ghosts = make_inputs(interp, c)
     reg.ghost_env = dict(ghosts)
     # ghost (monitor) variables declared in `modifies`: the function starts in an arbitrary monitor state
+    from .api import Dependent as _Dependent
     for key, ty in (c.modifies or {}).items():
-        if key.startswith('ghost:'):
+        if key.startswith('ghost:') and isinstance(ty, Ty) and not isinstance(ty, _Dependent):
             st.ghost[key[6:]] = ty.make(interp, key)
     if c.setup is not None:
         extra = c.setup(interp, args, ghosts)
@@ -309,6 +383,7 @@ def _run_path(interp, reg, c, func, rep):
     old = None
     if c.old is not None:
         old = _call_pred(interp, c.old, env)
+        env = dict(env, old=old)      # `when` conditions of exceptional outcomes may mention the pre-state
         reg.ghost_env['old'] = old        # visible to loop invariants
     # positional order of the real function
     code = func.__code__
@@ -355,7 +430,9 @@ def _run_path(interp, reg, c, func, rep):
                           interp.not_(w), {'kind': 'exc-post'})
         for name, clause in c.ensures.items():
             if isinstance(clause, tuple):
-                continue
+                if clause[1] != 'check-only':
+                    continue
+                clause = clause[0]
             _oblige_clause(interp, '%s : ensures[%s]' % (fname, name), clause, env2, {'kind': 'post'})
     else:
         exc = outcome[1]
